@@ -376,7 +376,7 @@ func (c *capture6) Write(p []byte) (int, error) {
 func c06(args []string) int {
 	f := mustFlags(args)
 	out := evid.New("C06")
-	runs := f.N(40, 400)
+	runs := f.N(64, 800)
 	oldL := zlog.Logger
 	defer func() { zlog.Logger = oldL }()
 	for run := 0; run < runs; run++ {
